@@ -165,7 +165,7 @@ func (x *Exec) err(path []interface{}, kind string) {
 
 func (x *Exec) fail(path []interface{}, f model.Fault) {
 	n := 1
-	if f.Kind == "group" {
+	if f.Kind == "group" || f.Kind == "wgroup" {
 		n = f.N
 	}
 	for i := 0; i < n; i++ {
